@@ -101,8 +101,19 @@ def str_method(I, s, name):
                 return host(a, k)
             t = sterm(I_, s)
             sub = sterm(I_, a[0])
+            off = z3.IntVal(0)
             if len(a) > 1:
-                raise OutOfReach("str.rfind with start")
+                # s.rfind(sub, start[, end]) == position in the slice s[start:end], shifted (non-negative bounds)
+                lo = I_.as_int(a[1])
+                hi = I_.as_int(a[2]) if len(a) > 2 else z3.Length(t)
+                if not I_.prover.fork(z3.And(lo >= 0, hi >= 0)):
+                    raise OutOfReach("str.rfind with negative bounds")
+                lo2 = z3.If(lo > z3.Length(t), z3.Length(t), lo)
+                hi2 = z3.If(hi > z3.Length(t), z3.Length(t), hi)
+                t = z3.SubString(t, lo2, z3.If(hi2 >= lo2, hi2 - lo2, 0))
+                off = lo2
+                if not I_.prover.fork(lo <= z3.Length(sterm(I_, s))):
+                    return -1
             r = I_.fresh("rfind", z3.IntSort())
             # last occurrence: specified by its defining property
             n, m = z3.Length(t), z3.Length(sub)
@@ -112,7 +123,7 @@ def str_method(I, s, name):
                 z3.And(r == -1, z3.Not(z3.Contains(t, sub))),
                 z3.And(r >= 0, r + m <= n, z3.SubString(t, r, m) == sub,
                        z3.Not(z3.Contains(z3.SubString(t, r + 1, n), sub)) if True else True)))
-            return Sym(VInt(r))
+            return Sym(VInt(S(z3.If(r < 0, r, r + off))))
         return Native(name, rfind)
     if name in ("strip", "lstrip", "rstrip", "lower", "upper", "split", "join", "format",
                 "startswith", "endswith", "replace", "encode", "isdigit", "rsplit", "title",
